@@ -88,10 +88,12 @@ CLAIMED = {
              "appends and Revert, dirtied addresses stay cached and are materialised in the reference, undirtied ones show the store "
              "(four invariants carried over the nested body), then a per-address case analysis of the two commits; side conditions on "
              "the final state: written-back balances are whole multiples of 10^12 wei, an account that ends empty without "
-             "self-destructing has no storage; a concrete transaction is evaluated by the kernel as witness; ApplyEvmMsg's EIP-3529 refund equals go-ethereum's for all inputs and never exceeds a fifth of the gas used. A "
+             "self-destructing has no storage; lifted to ANY sequence of transactions by induction (C03_history_commits_match_reference_partial); "
+             "concrete transactions are evaluated by the kernel as witnesses; ApplyEvmMsg's EIP-3529 refund equals go-ethereum's for all inputs and never exceeds a fifth of the gas used. A "
              "cross-implementation oracle reports the first call on which Nibiru's and go-ethereum's real StateDBs answer differently.",
-        note="Proved for one transaction at a time; chaining transactions needs the relation to tolerate go-ethereum's deletion of empty accounts "
-             "(Nibiru persists them) at the start of the next one — handled by the harness's rendering, not by a theorem. Transactions that "
+        note="The history theorem (C03_history_commits_match_reference_partial: any sequence of transactions) assumes that no account ends a "
+             "transaction empty — where go-ethereum deletes and Nibiru persists an empty record; that case is covered for a single "
+             "transaction only and otherwise handled by the harness's rendering, not by a theorem. Transactions that "
              "call a Nibiru precompile are outside every theorem here (C04/C08); there the equality is established by the correspondence "
              "runs only. Trusted: Lean kernel; the interpreter (same code on both sides); harness; GethSpec's fidelity to go-ethereum "
              "is itself validated by differential execution, not proved. Precompile calls are excluded here (C04/C08).",
